@@ -23,6 +23,7 @@ pub mod c20;
 pub mod c21;
 pub mod c22;
 pub mod c23;
+pub mod c24;
 pub mod c25;
 
-pub const REGISTRY: &[(&str, fn(&Ctx) -> !)] = &[("C01", c01::run), ("C02", c02::run), ("C03", c03::run), ("C04", c04::run), ("C05", c05::run), ("C06", c06::run), ("C07", c07::run), ("C08", c08::run), ("C09", c09::run), ("C10", c10::run), ("C17", c17::run), ("C18", c18::run), ("C19", c19::run), ("C20", c20::run), ("C11", c11::run), ("C12", c12::run), ("C13", c13::run), ("C15", c15::run), ("C16", c16::run), ("C21", c21::run), ("C22", c22::run), ("C23", c23::run), ("C25", c25::run)];
+pub const REGISTRY: &[(&str, fn(&Ctx) -> !)] = &[("C01", c01::run), ("C02", c02::run), ("C03", c03::run), ("C04", c04::run), ("C05", c05::run), ("C06", c06::run), ("C07", c07::run), ("C08", c08::run), ("C09", c09::run), ("C10", c10::run), ("C17", c17::run), ("C18", c18::run), ("C19", c19::run), ("C20", c20::run), ("C11", c11::run), ("C12", c12::run), ("C13", c13::run), ("C15", c15::run), ("C16", c16::run), ("C21", c21::run), ("C22", c22::run), ("C23", c23::run), ("C24", c24::run), ("C25", c25::run)];
